@@ -1,8 +1,65 @@
 import TRV.Oracle.Util
-/-! Oracle operations: Multi (stub, filled in by the module that owns it). -/
+import TRV.Spec.Multi
+/-! Oracle operations for the multi-query aggregation model (C15). -/
 namespace TRV.Oracle.Multi
-open TRV.Oracle
+open TRV TRV.Oracle TRV.Multi TRV.Spec.Multi
 
-def handlers : List (String × Handler) := []
+/-- `r:<i>:ok:<marker>` | `r:<i>:err:<e>` | `p:<j>:ok:<rtt>` | `p:<j>:err:<e>` -/
+def parseCompletion (s : String) : Option Completion :=
+  match splitOn s ':' with
+  | [k, i, o, v] => do
+    let i ← i.toNat?
+    let v ← v.toNat?
+    let out : Option (Out Nat) :=
+      if o = "ok" then some (.ok v) else if o = "err" then some (.err v) else none
+    let out ← out
+    if k = "r" then pure (.run i out) else if k = "p" then pure (.probe i out) else none
+  | _ => none
+
+/-- `off` | `err` | `ok:<ip marker>` -/
+def parsePub (s : String) : Option PubIP :=
+  if s = "off" then some .off
+  else if s = "err" then some .err
+  else match splitOn s ':' with
+    | ["ok", v] => v.toNat?.map .ok
+    | _ => none
+
+def showNats (l : List Nat) : String :=
+  if l.isEmpty then "-" else ",".intercalate (l.map toString)
+
+def parseNats (s : String) : Option (List Nat) :=
+  if s = "-" then some [] else (splitOn s ',').mapM (·.toNat?)
+
+def showRes : Res → String
+  | .ok r => s!"ok {showNats r.runs} {showNats r.rtts} {match r.publicIP with | some ip => toString ip | none => "-"}"
+  | .joined es => s!"joined {showNats es}"
+
+/-- `multi.agg <pub> <completion>…` (completions in completion order) -/
+def agg : Handler
+  | pub :: cs => orBad do
+    let pub ← parsePub pub
+    let cs ← cs.mapM parseCompletion
+    pure (showRes (aggregate cs pub))
+  | _ => badOp
+
+def parseRes : List String → Option Res
+  | ["ok", runs, rtts, pub] => do
+    let runs ← parseNats runs
+    let rtts ← parseNats rtts
+    let pub ← if pub = "-" then some none else pub.toNat?.map some
+    pure (.ok { runs := runs, rtts := rtts, publicIP := pub })
+  | ["joined", es] => (parseNats es).map .joined
+  | _ => none
+
+/-- `multi.spec <observed result as printed by showRes> ; <outcome>…` (outcomes in request order):
+    the C15 all-or-error predicate evaluated on an observed `(result, error)` -/
+def spec : Handler := fun toks =>
+  let (res, outs) := toks.span (· != ";")
+  orBad do
+    let res ← parseRes res
+    let outs ← (outs.drop 1).mapM parseCompletion
+    pure (showBool (allOrError outs res))
+
+def handlers : List (String × Handler) := [("multi.agg", agg), ("multi.spec", spec)]
 
 end TRV.Oracle.Multi
